@@ -135,9 +135,50 @@ const (
 	urlPipe      = "c11.url-with-pipe-in-query" // '|' in the query collides with the AES ttl separator
 )
 
-func drawServerURL(rt *rapid.T, i int, class string) string {
+// nearTwin derives from a member's URL another valid URL that is a different server and almost the same text: the
+// other scheme, the scheme/host boundary shifted by a letter (https://api... and http://sapi...), a trailing slash
+// more or less, one more digit in the port, another letter case in the path.
+func nearTwin(rt *rapid.T, base string) string {
+	u, err := url.Parse(base)
+	if err != nil || u.Host == "" || strings.HasPrefix(u.Host, "[") {
+		return base
+	}
+	u.User, u.RawQuery = nil, ""
+	switch rapid.IntRange(0, 4).Draw(rt, "twin-kind") {
+	case 0:
+		u.Scheme = map[string]string{"http": "https", "https": "http"}[u.Scheme]
+	case 1:
+		if u.Scheme == "https" {
+			u.Scheme, u.Host = "http", "s"+u.Host
+		} else if strings.HasPrefix(u.Host, "s") && len(u.Hostname()) > 1 {
+			u.Scheme, u.Host = "https", u.Host[1:]
+		} else {
+			u.Host = "s" + u.Host // so that a later twin of this one can be the https one
+		}
+	case 2:
+		if strings.HasSuffix(u.Path, "/") {
+			u.Path, u.RawPath = strings.TrimSuffix(u.Path, "/"), ""
+		} else {
+			u.Path, u.RawPath = u.Path+"/", ""
+		}
+	case 3:
+		if u.Port() != "" {
+			u.Host = u.Hostname() + ":" + u.Port()[:len(u.Port())-1]
+		} else {
+			u.Host += ":80"
+		}
+	default:
+		u.Path, u.RawPath = strings.ToUpper(u.Path), ""
+	}
+	return u.String()
+}
+
+func drawServerURL(rt *rapid.T, i int, class string, prev []string) string {
+	if class == urlPlain && len(prev) > 0 && rapid.IntRange(0, 3).Draw(rt, "near-twin-of-a-member") == 0 {
+		return nearTwin(rt, prev[rapid.IntRange(0, len(prev)-1).Draw(rt, "twin-of")])
+	}
 	scheme := rapid.SampledFrom([]string{"http", "http", "https"}).Draw(rt, "scheme")
-	host := []string{"a", "b", "c", "10.0.0.1", "[::1]"}[i%5]
+	host := []string{"a", "sb", "c", "10.0.0.1", "[::1]"}[i%5]
 	if rapid.Bool().Draw(rt, "port") {
 		host += fmt.Sprintf(":%d", 8000+i)
 	}
@@ -249,7 +290,11 @@ func c11prop(r *simkit.Run) {
 	var keys []string
 	nURL := rapid.IntRange(1, 5).Draw(rt, "urls")
 	for i := 0; len(keys) < nURL && i < 12; i++ {
-		s := drawServerURL(rt, i, class)
+		var prev []string
+		for _, k := range keys {
+			prev = append(prev, universe[k])
+		}
+		s := drawServerURL(rt, i, class, prev)
 		u, err := url.Parse(s)
 		if err != nil {
 			continue
